@@ -270,6 +270,7 @@
 //! [AtomicBucket]: https://docs.rs/metrics-util/0.5.0/metrics_util/struct.AtomicBucket.html
 //! [Handle]: https://docs.rs/metrics-util/0.5.0/metrics_util/enum.Handle.html
 #![deny(missing_docs)]
+#![cfg_attr(metrics_verif, allow(missing_docs))]
 #![cfg_attr(docsrs, feature(doc_cfg), deny(rustdoc::broken_intra_doc_links))]
 
 pub mod atomics;
@@ -294,3 +295,31 @@ pub use self::metadata::*;
 
 mod recorder;
 pub use self::recorder::*;
+
+/// Verification hooks (only compiled with `--cfg metrics_verif`).
+#[cfg(metrics_verif)]
+#[allow(missing_docs)]
+pub mod verif {
+    use std::sync::atomic::{AtomicPtr, Ordering};
+
+    pub use crate::cow::Cow;
+    pub use crate::recorder::verif_cell::RecorderOnceCell;
+
+    static HOOK: AtomicPtr<()> = AtomicPtr::new(std::ptr::null_mut());
+
+    /// Installs the process-wide hook callback.
+    pub fn set_hook(f: fn(&'static str, usize)) {
+        HOOK.store(f as *const () as *mut (), Ordering::SeqCst);
+    }
+
+    /// A hook point: calls the installed callback, if any.
+    #[inline]
+    pub fn point(id: &'static str, arg: usize) {
+        let h = HOOK.load(Ordering::Acquire);
+        if !h.is_null() {
+            // SAFETY: only ever stored from a `fn(&'static str, usize)` in `set_hook`.
+            let f: fn(&'static str, usize) = unsafe { std::mem::transmute(h) };
+            f(id, arg);
+        }
+    }
+}
